@@ -909,3 +909,35 @@ mut('C05', 'jsonparser', _USEC, "            usec = int(float('0.' + frac_sec) *
 mut('C02', 'jsonparser', _USEC, "            usec = int(frac_sec[:6]) * 10 ** (6 - len(frac_sec))", name='fraction scaled by its unsliced length')
 mut('C05', 'jsonparser', _USEC, "            usec = int(frac_sec[:6]) * 10 ** (6 - len(frac_sec[:6]))", 'OK', name='refactor: fraction scaled by its sliced length')
 mut('C07', 'jsonparser', _USEC, "            usec = int((frac_sec + '000000')[:6])", 'OK', name='refactor: pad then cut')
+
+# ---- mutation screening: silent survivors turned into controls ---------------------------------------
+mut('C03', 'zincparser', "    Bin(toks[1]) if toks[0] == 'Bin' else XStr(toks[0], toks[1])])", "    Bin(toks[0]) if toks[0] == 'Bin' else XStr(toks[0], toks[1])])", name='Bin built from the type word')
+mut('C03', 'zincparser', "    Bin(toks[1]) if toks[0] == 'Bin' else XStr(toks[0], toks[1])])", "    Bin(toks[1]) if toks[0] == 'Bin' else XStr(toks[1], toks[1])])", name='XStr type taken from the payload token')
+mut('C11', 'grid_filter', "    lambda toks: Quantity(toks[0], toks[1])", "    lambda toks: Quantity(toks[0], toks[0])", name='filter quantity unit taken from the number token')
+mut('C11', 'grid_filter', "    lambda toks: [Bin(toks[0])]", "    lambda toks: [Bin(toks[1])]", name='filter Bin from a token that does not exist')
+mut('C03', 'zincparser', "    lambda toks: [Coordinate(toks[0], toks[1])])", "    lambda toks: [Coordinate(toks[1], toks[0])])", name='coordinate tokens swapped')
+mut('C08', 'zincparser', "                out += six.unichr(int(s[2:6], base=16))\n                s = s[6:]\n                continue", "                out += six.unichr(int(s[2:6], base=16))\n                s = s[6:]\n                break", name='scan ends after a unicode escape')
+mut('C01', 'zincparser', "                out += six.unichr(int(s[2:6], base=16))", "                out += six.unichr(int(s[2:7], base=16))", name='five hex digits read for a unicode escape')
+mut('C04', 'zincparser', "                out += six.unichr(int(s[2:6], base=16))\n                s = s[6:]", "                out += six.unichr(int(s[2:6], base=16))\n                s = s[7:]", name='seven characters consumed for a unicode escape')
+mut('C03', 'zincparser', "                out += six.unichr(int(s[2:6], base=16))\n                s = s[6:]\n                continue", "                out += six.unichr(int(s[2:6], base=16))\n                s = s[6:]\n                break", name='scan ends after a unicode escape')
+mut('C03', 'zincparser', "                out += six.unichr(int(s[2:6], base=16))\n                s = s[6:]", "                out += six.unichr(int(s[2:6], base=16))\n                s = s[7:]", name='seven characters consumed for a unicode escape')
+_ZDT = "    if len(toks) > 1:\n        tzname = toks[1]"
+mut('C17', 'zincparser', _ZDT, "    if len(toks) > 2:\n        tzname = toks[1]", name='zone label taken only with three tokens')
+mut('C03', 'zincparser', _ZDT, "    if len(toks) > 1:\n        tzname = toks[0]", name='zone label taken from the stamp token')
+mut('C17', 'zincparser', "    elif bool(tzname):\n        try:", "    elif not bool(tzname):\n        try:", name='zone conversion under the inverted guard')
+mut('C03', 'zincparser', "            tz = timezone(tzname)\n            return [isodt.astimezone(tz)]", "            return [isodt.astimezone(tz)]", name='zone look-up dropped (NameError swallowed)')
+mut('C05', 'jsonparser', "        tzname = matches[-1]", "        tzname = matches[0]", name='JSON zone label from the wrong group')
+mut('C05', 'jsonparser', "        if tzname is None:\n            return isodate  # No timezone given", "        if tzname is not None:\n            return isodate  # No timezone given", name='JSON zone guard inverted')
+mut('C05', 'jsonparser', "        value = float(matched[0])\n        if matched[-1] is not None:", "        value = float(matched[0])\n        if matched[0] is not None:", name='JSON number/quantity decided on the wrong group')
+mut('C11', 'grid_filter', "    for i in range(1, len(toks) - 1, 2):", "    for i in range(0, len(toks) - 1, 2):", name='fold starts at the first operand')
+mut('C11', 'grid_filter', "    for i in range(1, len(toks) - 1, 2):", "    for i in range(1, len(toks) - 1, 1):", name='fold steps through every token')
+mut('C19', 'grid', "            return isinstance(v1, bool) and isinstance(v2, bool) and v1 == v2", "            return isinstance(v1, bool) and isinstance(v2, bool) and v1 != v2", name='boolean cells compared with !=')
+mut('C19', 'grid', "                    isinstance(v2, numbers.Number)):\n                return False", "                    isinstance(v2, numbers.Number)):\n                return True", name='not-a-number guard answers True')
+mut('C10', 'grid', "        if isinstance(col_meta, dict) or isinstance(col_meta, SortableDict):\n            for val in col_meta.values():", "        if isinstance(col_meta, dict) and isinstance(col_meta, SortableDict):\n            for val in col_meta.values():", name='column validator guard: or -> and')
+mut('C11', 'grid', "                result = Grid(version=self.version, metadata=self.metadata, columns=self.column)\n                result.extend(", "                result = Grid(metadata=self.metadata, columns=self.column)\n                result.extend(", name='limit-only filter result loses the version')
+mut('C03', 'parser', "def parse(grid_str, mode=MODE_ZINC, charset='utf-8', single=True):", "def parse(grid_str, mode=MODE_ZINC, charset='utf-8', single=False):", name='parse() returns a list by default')
+mut('C16', 'metadata', "    def extend(self, items, replace=True):", "    def extend(self, items, replace=False):", name='extend refuses existing tags by default')
+mut('C17', 'zoneinfo', "    Return the timezone map, generating it if needed.\n    \"\"\"\n    _gen_map()\n", "    Return the timezone map, generating it if needed.\n    \"\"\"\n", name='get_tz_map does not build the map')
+mut('C05', 'jsonparser', _USEC, "            usec = int(frac_sec[:5].ljust(6, '0'))", name='fraction cut to five digits')
+mut('C02', 'jsonparser', _USEC, "            usec = int(frac_sec[:7].ljust(6, '0'))", name='fraction cut to seven digits')
+mut('C20', 'datatypes', "    def __add__(self, other):\n        if isinstance(other, Qty):", "    def __add__(self, other):\n        if not isinstance(other, Qty):", name='unwrap guard inverted in __add__')
